@@ -564,6 +564,11 @@ def main(argv=None):
             continue
         seen_v.add(k)
         path, reproduced = replay(r, a.tier)
+        if not reproduced and r["meta"].get("over_approx"):
+            # the obligation fails only from a loop head where locals the unit does not know ({names}) were given every value of
+            # their shape; without a failing input on the real code that is not evidence of a violation
+            undecided.append(f"obligation={r['name']} reason=fails-under-over-approximated-loop-state({r['meta']['over_approx']});no-failing-input-found replay={path}")
+            continue
         vio_lines.append(f"VIOLATION property={prop} replay={path}" + ("" if reproduced else " no-failing-input-found"))
     for v in extra_out.get("violations", []):
         vio_lines.append(v)
